@@ -4,7 +4,7 @@
 From Coq Require Import String List NArith ZArith Bool Lia.
 From J5V.lib Require Import Text Outcome.
 From J5V.model Require Import BclLexer BclParser BclErrpos.
-From J5V.proofs Require Import BclPosProofs BclLexerProofs BclParserProofs BclErrposProofs BclTextProofs BclBytesProofs.
+From J5V.proofs Require Import BclPosProofs BclLexerProofs BclParserProofs BclErrposProofs BclTextProofs BclBytesProofs BclUtf8Proofs.
 Import ListNotations.
 Local Open Scope Z_scope.
 
@@ -68,4 +68,14 @@ Proof.
       * intros body Hb. eapply Forall_impl; [|exact (Hn body Hb)]. intros n. apply node_wf_bytes.
   - exact (parse_runes_modes (utf8_decode input)).
   - intros context ds. unfold human_bytes. apply human_all_no_panic.
+Qed.
+
+(* a (line, column-in-runes) position of the input is the position of a BYTE offset of the Go string:
+   the offset len(bpre) of a byte prefix that ends at a rune boundary of []rune(input) *)
+Theorem valid_pos_byte_offset : forall input p, valid_pos (utf8_decode input) p ->
+  exists bpre bx, input = bpre ++ bx /\ p = P (utf8_decode bpre).
+Proof.
+  intros input p (pre & (x & Hx) & Hp).
+  destruct (decode_prefix_bytes input pre x Hx) as (bpre & bx & Hb & Hd & _).
+  exists bpre, bx. split; [exact Hb|]. rewrite Hd. exact Hp.
 Qed.
